@@ -43,8 +43,8 @@ type Case struct {
 	// Collide: some message has placeholders with colliding base names.
 	Collide bool `json:"collide"`
 	// filled by the parent before the children run
-	AllowedErrs []string          `json:"allowedErrs,omitempty"`
-	Catalogue   []CatEntry        `json:"catalogue,omitempty"`
+	AllowedErrs []string   `json:"allowedErrs,omitempty"`
+	Catalogue   []CatEntry `json:"catalogue,omitempty"`
 	// ExpectByOrder[orderKey][component] = sha256 of the parent's first observation
 	ExpectByOrder map[string]map[string]string `json:"expectByOrder,omitempty"`
 }
